@@ -170,6 +170,12 @@ inductive St where
 
 def St.pred (b : Bool) : St := if b then .found else .none
 
+/-- `notMatchTree.matches` on its child's answer -/
+def St.neg : St → St
+  | .higher => .higher
+  | .found => .none
+  | .none => .found
+
 /-- `substrMatchTree` (+ its `ngramIterationResults` / `ngramDocIterator`; `it = none` is the `noMatchTree` iterator
     that `iterateNgrams` returns when some trigram of the pattern does not occur in the shard) -/
 structure Sub where
@@ -364,20 +370,27 @@ def fewestIdx : List (List Nat) → Nat → Nat → Nat → Nat
   | c :: rest, ix, minCount, best =>
     if c.length < minCount then fewestIdx rest (ix + 1) c.length ix else fewestIdx rest (ix + 1) minCount best
 
+/-- the candidate list of a child that is a content `substrMatchTree` -/
+def MT.contentSub : MT → Option (List Nat)
+  | .sub s => if s.fileName then Option.none else some s.current
+  | _ => Option.none
+
 /-- the candidate lists of the children if all of them are content `substrMatchTree`s -/
 def MTs.contentSubs : MTs → Option (List (List Nat))
   | .nil => some []
-  | .cons (.sub s) t => if s.fileName then Option.none else (MTs.contentSubs t).map (s.current :: ·)
-  | .cons _ _ => Option.none
+  | .cons h t =>
+    match h.contentSub with
+    | Option.none => Option.none
+    | some l => (MTs.contentSubs t).map (l :: ·)
 
 def removeAt {α} : List α → Nat → List α
   | [], _ => []
   | _ :: t, 0 => t
   | h :: t, n + 1 => h :: removeAt t n
 
-/-- the part of `andLineMatchTree.matches` after its embedded and-tree answered `matchesFound` -/
-def sameLine (ctx : Ctx) (doc : Nat) (ch : MTs) : St :=
-  match MTs.contentSubs ch with
+/-- the part of `andLineMatchTree.matches` after its embedded and-tree answered `matchesFound`; the argument is the
+    candidate lists of the children if all of them are content `substrMatchTree`s -/
+def sameLineOf (ctx : Ctx) (doc : Nat) : Option (List (List Nat)) → St
   | Option.none => .found
   | some cands =>
     let text := ctx.text false doc
@@ -385,6 +398,8 @@ def sameLine (ctx : Ctx) (doc : Nat) (ch : MTs) : St :=
     let few := fewestIdx cands 0 (maxU32 * maxU32) 0
     let lines := lineRanges nls text.length (cands.getD few []) Option.none
     St.pred (lineLoop (lines.length + 1) lines (removeAt cands few) cands.length)
+
+def sameLine (ctx : Ctx) (doc : Nat) (ch : MTs) : St := sameLineOf ctx doc (MTs.contentSubs ch)
 
 mutual
 /-- `evalMatchTree(cp, cost, known, mt)` = the `known` lookup, `mt.matches`, and the store -/
@@ -427,7 +442,7 @@ def MT.eval (ctx : Ctx) (doc cost : Nat) : MT → St × MT
     | some v => (St.pred v, .not k c)
     | Option.none =>
       let (sc, c') := c.eval ctx doc cost
-      let st := match sc with | .higher => St.higher | .found => St.none | .none => St.found
+      let st := sc.neg
       (st, .not (if st = .higher then Option.none else some (st = .found)) c')
   | .fileName k c =>
     match k with
